@@ -661,7 +661,13 @@ class Interp:
         body_nodes = list(node.body) + ([node.test] if isinstance(node, ast.While) else [node.target])
         names = self.assigned_names(body_nodes) | set(extra_havoc)
         self.havoc_locals(st, names)
-        frame = c.loop_frame(ordinal) if self.depth == 0 else None
+        if self.depth == 0:
+            frame = c.loop_frame(ordinal)
+        else:
+            # a loop of an inlined helper: the contract of the function under verification may declare a frame for it
+            # (checked like any other: inv-keep:loopN:frame), otherwise the whole heap is havocked
+            h = getattr(c, "inlined_loop_frame", None)
+            frame = h(self.fi.key, ordinal) if h is not None else None
         keys = None
         if frame is not None:
             keys = [k for k, _ in eng.reg.mutable_keys() if k not in frame]
@@ -703,9 +709,10 @@ class Interp:
         if framed:
             eng.oblige(st, f"loop{ordinal}:frame", z3.BoolVal(not touched), props=tuple(getattr(c, "props", ())), kind="inv-keep", extra={"touched": touched})
         be = getattr(c, "on_back_edge", None)
-        if be is not None and self.depth == 0:
+        if be is not None and (self.depth == 0 or getattr(c, "back_edges_of_inlined_loops", False)):
+            tag = f"loop{ordinal}" if self.depth == 0 else f"{self.fi.key.rsplit('.', 1)[-1]}.loop{ordinal}"
             for label, props, goal in be(self.ctx, ordinal) or []:
-                eng.oblige(st, f"loop{ordinal}:{label}", goal, props=props, kind="inv-keep")
+                eng.oblige(st, f"{tag}:{label}", goal, props=props, kind="inv-keep")
         eng.cover(f"{eng.canon_func_key(self.fi.key)}:loop{ordinal}:back-edge")
         raise PathEnd()
 
@@ -1111,6 +1118,9 @@ class Interp:
         reg = eng.reg
         fv = eng.unbox(st, fv)
         if isinstance(fv, VFunc):
+            pre = getattr(fv, "pre_args", None)
+            if pre:  # functools.partial(f, *pre)
+                args = list(pre) + list(args)
             if fv.bound is not None:
                 return self.call_method(st, fv.bound, fv.name, args, kwargs, node)
             if fv.name.startswith("builtins."):
